@@ -119,7 +119,7 @@ def body_E1(ctx):
     if sh.get("scripts"):
         # thread 0: one solver-chosen reader op; thread 1: a fixed write-after-reset script
         readers = sh["scripts"]["readers"]
-        thread_ops = [[readers[ctx.choose(len(readers), "reader op")]], list(sh["scripts"]["writer"])]
+        thread_ops = [list(sh["scripts"].get("reader_prefix", [])) + [readers[ctx.choose(len(readers), "reader op")]], list(sh["scripts"]["writer"])]
         nthreads = 2
     else:
         thread_ops = [[menu[ctx.choose(len(menu), "op t%d.%d" % (t, i))] for i in range(per)] for t in range(nthreads)]
@@ -153,9 +153,22 @@ def _body_E1_locked(ctx, sh, sched, locks, thread_ops, nthreads, preload):
     outs = {}
     written = [(m, s) for m, s in zip(logger.messages, logger.serializers)]
 
+    # scripted histories: thread 0 first runs its prefix (e.g. a write of an invalid message and the
+    # validate() call that raises because of it) while thread 1 waits at a gate, then both race
+    nprefix = len(sh["scripts"].get("reader_prefix", [])) if sh.get("scripts") else 0
+    gate = None
+    if nprefix:
+        gate = SchedLock(sched)
+        gate.acquire()
+
     def mk(t):
         def work():
+            if gate is not None and t == 1:
+                gate.acquire()
+                gate.release()
             for i, name in enumerate(thread_ops[t]):
+                if gate is not None and t == 0 and i == nprefix:
+                    gate.release()
                 fn, m, ser = _make_op(logger, name, 10 * (t + 1) + i)
                 if m is not None:
                     written.append((m, ser))
@@ -273,10 +286,13 @@ def E2() -> bool:
 
 def _e1_shards(tier):
     scripted = {"threads": 2, "P": 2, "preload": 1, "scripts": {"readers": ["validate", "serialize", "flush"], "writer": ["reset", "write-traceback"]}}
+    # a locked call that raised earlier in the same thread (validate() on an invalid message), then a race
+    after_raise = {"threads": 2, "P": 2, "preload": 0, "scripts": {"reader_prefix": ["write-invalid", "validate"], "readers": ["write-typed", "flush", "reset"], "writer": ["write-traceback"]}}
     if tier == "quick":
         base = {"threads": 2, "ops_per_thread": 1, "P": 2}
-        return [dict(base, prefix=p) for p in enumerate_prefixes(body_E1, "X", {}, base, 2)] + [dict(scripted, prefix=p) for p in enumerate_prefixes(body_E1, "X", {}, scripted, 2)]
+        return [dict(base, prefix=p) for p in enumerate_prefixes(body_E1, "X", {}, base, 2)] + [dict(scripted, prefix=p) for p in enumerate_prefixes(body_E1, "X", {}, scripted, 2)] + [dict(after_raise, prefix=p) for p in enumerate_prefixes(body_E1, "X", {}, after_raise, 2)]
     out = [dict(dict(scripted, P=3), prefix=p) for p in enumerate_prefixes(body_E1, "X", {}, dict(scripted, P=3), 3)]
+    out += [dict(dict(after_raise, P=3), prefix=p) for p in enumerate_prefixes(body_E1, "X", {}, dict(after_raise, P=3), 3)]
     base = {"threads": 2, "ops_per_thread": 1, "P": 3}
     out += [dict(base, prefix=p) for p in enumerate_prefixes(body_E1, "X", {}, base, 2)]
     base = {"threads": 3, "ops_per_thread": 1, "P": 2, "menu": ["write-typed", "write-traceback", "validate", "flush", "reset"]}
@@ -303,7 +319,7 @@ OBLIGATIONS = [
         shards=_e1_shards,
         twin=[{"threads": 2, "ops_per_thread": 1, "P": 2, "twin_label": "interleaved"}],
         timeout={"quick": 100, "thorough": 1500},
-        bounds={"quick": "2 threads x 1 operation each from 8 kinds (64 assignments), and validate|serialize|flush racing a reset-then-write script on a logger that already holds a message; every schedule with <= 2 preemptions at line granularity in eliot/_output.py", "thorough": "2 threads x 1 op with <= 3 preemptions; 3 threads x 1 op from 5 kinds and 2 threads x 2 ops from 3 kinds with <= 2 preemptions; the scripted race with <= 3"},
+        bounds={"quick": "2 threads x 1 operation each from 8 kinds (64 assignments), and validate|serialize|flush racing a reset-then-write script on a logger that already holds a message; write|flush|reset racing a traceback write in a thread whose previous validate() raised; every schedule with <= 2 preemptions at line granularity in eliot/_output.py", "thorough": "2 threads x 1 op with <= 3 preemptions; 3 threads x 1 op from 5 kinds and 2 threads x 2 ops from 3 kinds with <= 2 preemptions; the scripted race with <= 3"},
     ),
     Ob(
         "E2",
